@@ -127,7 +127,7 @@ def run(src, tier, seed):
 
     # ---- R4 background
     r = res.rule('background-asserted-first', 'every background term is asserted at the base level before the first trial; in named mode the background is every current '
-                 'assertion that has no name', floor=3)
+                 'assertion that has no name', floor=4)
     pos = top.index(lp)
     bg = [s for s in top[:pos] if s.get('k') == 'loop' and s.get('kind') == 'range' and path_of(s.get('range')) == 'this.backgroundTerms']
     if bg and any(is_call(x, 'insertFormula', solver) and path_of(x['a'][0]) == bg[0].get('var') for x in walk(bg[0]['body'])) \
@@ -145,10 +145,19 @@ def run(src, tier, seed):
     else:
         res.bad(r, 'background-dropped', fx.loc(ctor[0]), 'the Minimize constructor no longer stores its background terms argument')
     mi = fx.func('opensmt::UnsatCoreBuilder::minimize')
-    loops = [s for s in walk(mi['body']) if s.get('k') == 'loop' and s.get('kind') == 'range' and any(is_call(x, 'getCurrentAssertionsView') or is_call(x, 'getCurrentAssertions') for x in walk(s.get('range')))]
+    # the loop that fills the background is recognised by what it does (pushes its variable into the hidden/background vector); what it iterates over is then judged
+    loops = [s for s in walk(mi['body']) if s.get('k') == 'loop' and s.get('kind') == 'range' and s.get('var') and
+             any(x.get('k') == 'call' and mname(x) in ('push', 'push_back', 'emplace_back') and x.get('a') and path_of(x['a'][0]) == s['var'] and 'hidden' in (recv_path(x) or '').lower()
+                 for x in walk(s['body']))]
     if len(loops) != 1:
-        raise AnalysisBroken('UnsatCoreBuilder::minimize: expected one loop over the current assertions, found %d' % len(loops))
+        raise AnalysisBroken('UnsatCoreBuilder::minimize: expected one loop that collects the background terms, found %d' % len(loops))
     bl = loops[0]
+    srcs = sorted({mname(x) for x in walk(bl.get('range')) if x.get('k') == 'call' and not callee(x).startswith('std::')})
+    if any(m in ('getCurrentAssertionsView', 'getCurrentAssertions') for m in srcs):
+        res.ok(r, 'minimize: the background is collected from %s' % srcs)
+    else:
+        res.bad(r, 'background-source', fx.loc(mi, bl.get('ln')), 'UnsatCoreBuilder::minimize collects the background from %s instead of the whole current assertion stack: unnamed assertions of the '
+                'other levels are missing from the minimiser\'s background, so a named assertion that is redundant because of them stays in the "minimal" core' % (srcs or 'an unknown source'))
     c2 = BgWalk(bl.get('var'))
     pseudo = {'body': {'k': 'loop', 'kind': 'do', 'cond': {'k': 'lit', 'v': False, 't': 'bool'}, 'body': bl['body'], 'ln': bl.get('ln')}, 'lambdas': mi.get('lambdas', [])}
     eng = Engine(pseudo, c2)
